@@ -19,7 +19,7 @@ import z3
 
 from .values import (EngineError, Seq, DictV, SetV, Opaque, I, R, B, uid, is_z3, is_scalar, to_z3,
                      sort_of, as_int, as_real, as_bool, zand, zor, znot, zimp, zite, type_of, fresh,
-                     fresh_seq, fresh_dict, fresh_set, parse_type, values_equal, key_terms)
+                     fresh_seq, fresh_dict, fresh_set, parse_type, values_equal, key_terms, bvar, mentions_bound)
 
 UNROLL_LIMIT = 8
 
@@ -75,10 +75,15 @@ class State:
         from .values import NONNEG_SINK, WF_SINK, drain_nonneg
         if NONNEG_SINK or WF_SINK:
             self.pc.extend(drain_nonneg())
+        from .norm import normalize
         for f in facts:
             if f is True:
                 continue
-            self.pc.append(to_z3(f))
+            f = to_z3(f)
+            if z3.is_quantifier(f) or z3.is_and(f):
+                self.pc.extend(normalize(f))
+            else:
+                self.pc.append(f)
 
 
 class Builtin:
@@ -240,6 +245,7 @@ class Exec:
         self.exits = []
         self.loop_ordinal = 0
         self.checking = True            # False while evaluating contract text (no safety obligations)
+        self.binders = 0                # > 0 while evaluating under a quantifier-bound variable
         self.notes = []
         self.is_generator = any(isinstance(n, (ast.Yield, ast.YieldFrom)) for n in ast.walk(self.fnode))
         self.fnname = "%s.%s" % (module.modname.split(".")[-1], qual)
@@ -391,6 +397,13 @@ class Exec:
         m = getattr(self, "stmt_" + type(node).__name__, None)
         if m is None:
             raise EngineError("%s:L%d: statement %s outside the subset" % (self.fnname, node.lineno, type(node).__name__))
+        ghosts = getattr(self.contract, "ghosts", None)
+        if ghosts and not isinstance(node, (ast.For, ast.While, ast.If, ast.Try, ast.With)):
+            text = ast.unparse(node)
+            for g in ghosts:
+                if g.get("before") and text.startswith(g["before"]):
+                    g["hit"] = g.get("hit", 0) + 1
+                    self.eval(g["do"].body, st)
         res = m(node, st)
         out = []
         for s in res:
@@ -404,7 +417,7 @@ class Exec:
             for g in ghosts:
                 if text is None:
                     text = ast.unparse(node)
-                if text.startswith(g["after"]):
+                if g.get("after") and text.startswith(g["after"]):
                     g["hit"] = g.get("hit", 0) + 1
                     for s in out:
                         if s.status == "run":
@@ -597,6 +610,11 @@ class Exec:
             elif isinstance(cur, SetV) and cur.kty == "any":
                 t = fresh(parse_type(ty), name + "_e0")
                 st.locals[name] = SetV(lambda k: False, 0, t.kty)
+            elif isinstance(cur, Seq) and cur.concrete_len() and cur.n == 0:
+                t = fresh(parse_type(ty), name + "_e0")
+                e = Seq(0, t._at, cur.kind)
+                e._ety = t.ety()
+                st.locals[name] = e
         # 1. establishment
         e = st.fork()
         bind_it(e, 0)
@@ -831,7 +849,7 @@ class Exec:
         raise EngineError("%s:L%d: unsupported subscript store on %r" % (self.fnname, target.lineno, base))
 
     def oblige_forall_index(self, st, idx, n, node):
-        j = z3.Int(uid("j"))
+        j = bvar("j")
         h = st.fork()
         h.assume(j >= 0, self.cmp_lt(j, idx.n))
         v = as_int(idx.at(j))
@@ -843,8 +861,8 @@ class Exec:
             return lambda k: zor(*[self.cmp_eq(k, idx.at(j)) for j in range(idx.n)])
         mem = z3.Function(uid("member"), I, B)
         wit = z3.Function(uid("wit"), I, I)
-        k = z3.Int(uid("k"))
-        j = z3.Int(uid("j"))
+        k = bvar("k")
+        j = bvar("j")
         st.assume(z3.ForAll([k], mem(k) == z3.And(wit(k) >= 0, wit(k) < to_z3(idx.n), to_z3(as_int(idx.at(wit(k)))) == k), patterns=[mem(k)]))
         aj = to_z3(as_int(idx.at(j)))
         st.assume(z3.ForAll([j], z3.Implies(z3.And(j >= 0, j < to_z3(idx.n)), mem(aj)), patterns=[aj] if not z3.is_var(aj) else [mem(aj)]))
@@ -863,7 +881,18 @@ class Exec:
         self.oblige(st, zand(self.cmp_ge(i, -n if isinstance(n, int) else -n), self.cmp_lt(i, n)), "index-in-range", node)
         if self.implied(st, i >= 0):
             return i
-        return z3.If(i < 0, i + to_z3(n), i)
+        return self.define(st, z3.If(i < 0, i + to_z3(n), i), "idx")
+
+    def define(self, st, v, name="d"):
+        """Name a compound integer term by a fresh constant (keeps later terms small).  Only at
+        statement level: never under a bound variable or while reading contract text."""
+        if not is_z3(v) or not self.checking or self.binders or z3.is_const(v) or z3.is_int_value(v):
+            return v
+        if mentions_bound(v):
+            return v
+        c = z3.Const(uid(name), v.sort())
+        st.pc.append(c == v)
+        return c
 
     # ------------------------------------------------------------------ solver helpers on the path
     def feasible(self, st):
@@ -875,11 +904,17 @@ class Exec:
         return s.check() != z3.unsat
 
     def implied(self, st, fact):
-        s = z3.Solver()
-        s.set("timeout", 300)
-        s.add(*st.pc)
-        s.add(z3.Not(to_z3(fact)))
-        return s.check() == z3.unsat
+        """Cheap entailment test used only to simplify terms (never to decide an obligation)."""
+        from .solve import slices
+        o = Obl("implied", list(st.pc), to_z3(fact), "implied", 0, self.fnname)
+        for _, hyps in slices(o, levels=(1, 2)):
+            s = z3.Solver()
+            s.set("timeout", 200)
+            s.add(*hyps)
+            s.add(z3.Not(o.goal))
+            if s.check() == z3.unsat:
+                return True
+        return False
 
     # ------------------------------------------------------------------ comparisons / arithmetic
     def cmp_eq(self, a, b):
@@ -1075,7 +1110,7 @@ class Exec:
     def generic_eq(self, a, b, st):
         if isinstance(a, Seq) and isinstance(b, Seq):
             # list == list
-            j = z3.Int(uid("q"))
+            j = bvar("q")
             n = to_z3(a.n)
             return z3.And(to_z3(self.cmp_eq(a.n, b.n)),
                           z3.ForAll([j], z3.Implies(z3.And(j >= 0, j < n), to_z3(values_equal(a.at(j), b.at(j))))))
@@ -1089,8 +1124,8 @@ class Exec:
 
     def fresh_key(self, kty):
         if kty == "int":
-            return z3.Int(uid("k"))
-        return tuple(z3.Int(uid("k")) for _ in kty[1])
+            return bvar("k")
+        return tuple(bvar("k") for _ in kty[1])
 
     def contains(self, container, x, st, node):
         if isinstance(container, DictV):
@@ -1102,7 +1137,7 @@ class Exec:
         if isinstance(container, Seq):
             if container.concrete_len():
                 return zor(*[self.generic_eq(x, container.at(j), st) for j in range(container.n)])
-            j = z3.Int(uid("m"))
+            j = bvar("m")
             return z3.Exists([j], z3.And(j >= 0, j < to_z3(container.n), to_z3(self.generic_eq(x, container.at(j), st))))
         raise EngineError("%s:L%d: `in` on %r outside the subset" % (self.fnname, node.lineno, container))
 
@@ -1152,16 +1187,15 @@ class Exec:
             zv, zn = to_z3(v), to_z3(n)
             w = z3.If(zv < 0, zv + zn, zv)
             return z3.If(w < 0, z3.IntVal(0), z3.If(w > zn, zn, w))
-        a = clip(lo, 0)
-        b = clip(hi, n)
+        a = self.define(st, clip(lo, 0), "lo") if not isinstance(clip(lo, 0), int) else clip(lo, 0)
+        b = self.define(st, clip(hi, n), "hi") if not isinstance(clip(hi, n), int) else clip(hi, n)
         if isinstance(a, int) and isinstance(b, int):
             m = max(0, b - a)
             if s.items is not None:
                 return Seq.of(s.items[a:b], s.kind)
         else:
             za, zb = to_z3(a), to_z3(b)
-            m = z3.If(zb - za < 0, z3.IntVal(0), zb - za)
-            m = z3.simplify(m)
+            m = self.define(st, z3.simplify(z3.If(zb - za < 0, z3.IntVal(0), zb - za)), "slen")
         return Seq(m, lambda i, s=s, a=a: s.at(i + a), s.kind)
 
     def as_seq(self, v, st, node=None):
@@ -1218,7 +1252,7 @@ class Exec:
             ts = tuple(f(to_z3(j)) for f in kfs)
             return ts[0] if d.kty == "int" else ts
 
-        j = z3.Int(uid("j"))
+        j = bvar("j")
         kj = keyat(j)
         st.assume(z3.ForAll([j], z3.Implies(z3.And(j >= 0, j < n),
                                             z3.And(to_z3(d.dom(kj)), pos(*key_terms(kj)) == j)), patterns=[kfs[0](j)]))
@@ -1442,8 +1476,8 @@ class Exec:
         src = z3.Function(uid("src"), I, I)
         inv = z3.Function(uid("srcinv"), I, I)
         n = to_z3(s.n)
-        j = z3.Int(uid("j"))
-        i = z3.Int(uid("i"))
+        j = bvar("j")
+        i = bvar("i")
         st.assume(m >= 0, m <= n)
         st.assume(z3.ForAll([j], z3.Implies(z3.And(j >= 0, j < m),
                                             z3.And(src(j) >= 0, src(j) < n, to_z3(keep(src(j))), inv(src(j)) == j)),
@@ -1451,7 +1485,7 @@ class Exec:
         st.assume(z3.ForAll([i], z3.Implies(z3.And(i >= 0, i < n, to_z3(keep(i))),
                                             z3.And(inv(i) >= 0, inv(i) < m, src(inv(i)) == i)),
                             patterns=[inv(i)]))
-        j2 = z3.Int(uid("j"))
+        j2 = bvar("j")
         st.assume(z3.ForAll([j, j2], z3.Implies(z3.And(j >= 0, j < j2, j2 < m), src(j) < src(j2)),
                             patterns=[z3.MultiPattern(src(j), src(j2))]))
         out = Seq(m, lambda jj, s=s: s.at(src(to_z3(jj))), s.kind)
